@@ -72,10 +72,13 @@ def ref_op_py(name, args):
 def denote(netlist, input_terms):
     """label -> z3 Bool for every gate reachable by definition order-free recursion."""
     memo = dict(input_terms)
+    limit = 4 * sum(len(ops) + 1 for _, ops in netlist.values()) + 64
     # iterative post-order to avoid recursion limits
     for root in netlist:
         stack = [root]
         while stack:
+            if len(stack) > limit:
+                raise ValueError("cyclic netlist: the reference semantics is defined for acyclic circuits only")
             lab = stack[-1]
             if lab in memo:
                 stack.pop()
